@@ -185,6 +185,16 @@ def run(ctx):
         a, b = pe[2 * i], pe[2 * i + 1]
         events.append(dict(ev="reqpair", pair=i, panic_with=bool(a["panic"]), panic_without=bool(b["panic"]), panic=a["panic"][:300],
                            **{"with": a.get("all") or [], "without": b.get("all") or []}, script=rs[2 * i]))
+    # ---------------- runMain: a test recording requested in the middle of a motion recording (and while idle): the motion
+    # and continuous files must be exactly the ones predicted without the request (SystemTrace.tla)
+    e2e_viol = []
+    overlap_runs = fam_e2e.c17_runs(ctx, binp0)
+    for v in fam_e2e.judge_c11(ctx, overlap_runs, binp0):
+        k = v["key"]
+        if "daemon-crashed" in k:
+            e2e_viol.append(dict(v, key="C16:request-crashes-pipeline[runMain]"))
+        elif "motion-files-differ" in k or "continuous-files-differ" in k:
+            e2e_viol.append(dict(v, key="C16:request-changes-recordings[runMain]"))
     tp = ctx.path("run", "snap.ndjson")
     vlib.write_ndjson(tp, events)
     t = ctx.tlc("mon", "SnapTrace", mkcfg(init="TInit", next_="TNext", post="Consumed"), workers=1,
@@ -200,12 +210,16 @@ def run(ctx):
             e = events[line - 1]
             rp = vlib.save_replay(ctx, re.sub(r"[^A-Za-z0-9_]+", "_", tg)[:80], dict(family="snapshot", property="C16", clause=tg, event=e))
             violations.append(dict(key=tg, replay=rp, what=json.dumps(e)[:300]))
+    for v in e2e_viol:
+        if v["key"] not in seen:
+            seen.add(v["key"])
+            violations.append(v)
     snaps = [e for e in events if e["ev"] == "snap"]
     coverage = dict(states=d.get("distinct", 0) + d1.get("distinct", 0), transitions=d.get("generated", 0) + d1.get("generated", 0),
                     traces_validated_against_impl=nrace * int(race_ok) + nstress, samples=[snaps[0] if snaps else {"none": True}],
                     exhaustive=True, design=dict(N=[1, 2], F=3, requesters=3, unsynced_model_violates_NoRace=not du["ok"]),
                     race_detector_runs=nrace * int(race_ok), race_reports=races_seen, stress_runs=nstress,
-                    request_pairs_on_real_sinks=npairs,
+                    request_pairs_on_real_sinks=npairs, runmain_requests_inside_motion_recordings=len(overlap_runs),
                     request_pairs_with_recordings=sum(1 for e in events if e["ev"] == "reqpair" and e["without"]),
                     snapshots_returned=len(snaps), snapshots_with_lower_bound=sum(1 for e in snaps if e["lb"] > 0),
                     distinct_snapshot_values=len({tuple(e["values"]) for e in snaps}),
